@@ -78,6 +78,19 @@ def gen_obj_case(rng: Rng, max_ops: int = 30) -> dict:
     ops: List[dict] = []
     added: Dict[str, List[dict]] = {l: [] for l in lists}
     cur_max = {l: mx for l in lists}
+    preload = None
+    if host != "bare" and rng.chance(1, 2):
+        # rules written in the scenario file: `Router.from_config` / the six loops of `Firewall.from_config`
+        preload = {}
+        for lst in (["router"] if host == "router" else [l for l in LISTS if l != "router"]):
+            rules = []
+            for pos in rng.shuffle(list(range(0, 24)))[:rng.range(0, 3)]:
+                r = _gen_rule(rng)
+                if base._config_entry(r) is None:
+                    continue
+                rules.append({"pos": pos, "rule": r, "spelling": rng.choice(["code", "code", "documented", "both"])})
+                added[lst].append(r)
+            preload[lst] = rules
     n = rng.range(4, max_ops)
     for _ in range(n):
         lst = rng.choice(lists)
@@ -100,7 +113,7 @@ def gen_obj_case(rng: Rng, max_ops: int = 30) -> dict:
             ops.append({"op": "show", "list": lst})
         else:
             ops.append(_gen_check(rng, lst, added[lst]))
-    return {"family": "obj", "host": host, "ctor": ctor, "ops": ops}
+    return {"family": "obj", "host": host, "ctor": ctor, "preload": preload, "ops": ops}
 
 
 def gen_inject(rng: Rng, nports: int) -> dict:
@@ -287,7 +300,30 @@ def edit_line(op: dict) -> str:
     return base.rule_line(op["pos"], op["rule"]) if op["op"] == "add" else f"remove {op['pos']}"
 
 
-def build_device(kind: str, with_hosts: bool = True):
+def scenario_entry(item: dict) -> dict:
+    """the rule as a scenario file spells it: the keys the shipped scenarios use (`code`), the keys the documentation uses
+    for the addresses (`documented`), or both with the shipped spelling carrying the rule's value (it wins)"""
+    e = dict(base._config_entry(item["rule"]))
+    if item["spelling"] == "documented":
+        for a, b in (("src_ip", "src_ip_address"), ("dst_ip", "dst_ip_address")):
+            if a in e:
+                e[b] = e.pop(a)
+    elif item["spelling"] == "both":
+        for a, b in (("src_ip", "src_ip_address"), ("dst_ip", "dst_ip_address")):
+            if a in e:
+                e[b] = "203.0.113.9"
+    return e
+
+
+def acl_config(kind: str, preload: Optional[dict]):
+    if not preload:
+        return None
+    if kind == "router":
+        return {it["pos"]: scenario_entry(it) for it in preload.get("router", [])}
+    return {FW_ATTR[l]: {it["pos"]: scenario_entry(it) for it in preload.get(l, [])} for l in FW_ATTR}
+
+
+def build_device(kind: str, with_hosts: bool = True, preload: Optional[dict] = None):
     """hosts H0.. on 10.0.<p+1>.2 behind port p+1 (10.0.<p+1>.1) of a router (2 ports) or firewall (external, internal, dmz).
     Connecting hosts makes traffic (their ARP announcements reach the device's lists): callers that compare counters either
     build without hosts or record from before the build."""
@@ -296,10 +332,14 @@ def build_device(kind: str, with_hosts: bool = True):
     from primaite.simulator.network.hardware.nodes.network.firewall import Firewall
     from primaite.simulator.network.hardware.nodes.network.router import Router
     net = Network()
+    cfg = {"type": kind, "hostname": "X", "start_up_duration": 0}
+    acl_cfg = acl_config(kind, preload)
+    if acl_cfg is not None:
+        cfg["acl"] = acl_cfg
     if kind == "router":
-        x = Router.from_config({"type": "router", "hostname": "X", "num_ports": 2, "start_up_duration": 0})
+        x = Router.from_config(dict(cfg, num_ports=2))
     else:
-        x = Firewall.from_config({"type": "firewall", "hostname": "X", "start_up_duration": 0})
+        x = Firewall.from_config(cfg)
     x.power_on()
     net.add_node(x)
     hosts = []
@@ -352,12 +392,19 @@ def run_obj(case: dict) -> Tuple[List[str], List[str]]:
         lists = {"router": AccessControlList(sys_log=SysLog("verif"), name="verif", **kw)}
         lines.append(f"obj {25 if c['max'] is None else c['max']} {c['implicit'] if c['implicit'] in ('PERMIT', 'DENY') else '-'}")
     elif host == "router":
-        net, x, hosts, lists = build_device("router", with_hosts=False)
+        net, x, hosts, lists = build_device("router", with_hosts=False, preload=case.get("preload"))
         lines.append("rt 25")
     else:
-        net, x, hosts, lists = build_device("firewall", with_hosts=False)
+        net, x, hosts, lists = build_device("firewall", with_hosts=False, preload=case.get("preload"))
         lines.append("fw 25")
     out.append("ok")
+    for lst, items in (case.get("preload") or {}).items():
+        for it in items:
+            lines += [f"sel {lst}", base.rule_line(it["pos"], it["rule"])]
+            out += ["ok", "ok"]
+        if items:  # what the loader installed, list by list, before anything else happens
+            lines += [f"sel {lst}", "dump"]
+            out += ["ok", base.dump_impl(lists[lst])]
     for op in case["ops"]:
         lst = op["list"]
         acl = lists[lst]
